@@ -937,7 +937,7 @@ func handleMessage(peer *Peer, m protocol.Message) error {
 		}
 		peer.startStopUpload()
 	case protocol.Port:
-		if peer.Port > 0 {
+		if peer.Port > 0 && !hasProxy(peer) {
 			dht.Ping(netip.AddrPortFrom(
 				peer.IP, uint16(peer.Port),
 			))
